@@ -53,18 +53,30 @@ static void die(FsModel& m)
 void enumerate_crash_states(std::map<std::string, std::string> files,
     std::vector<FsEvent> const& trace, CrashVisitor& v)
 {
+    std::string touched = "*";   // first state: everything is new
+    std::string touched2;        // a rename changes two paths: reported as "*"
+
     for (std::size_t e = 0; e != trace.size(); ++e)
     {
         FsEvent const& ev = trace[e];
-        v.state(e, 0, files);   // killed just before this call took effect
+        v.state(e, 0, files, touched);   // killed just before this call took effect
+        touched.clear();
 
         switch (ev.kind)
         {
         case FS_OPEN_TRUNC:
-            if (ev.err == 0) files[ev.path] = std::string();
+            if (ev.err == 0)
+            {
+                files[ev.path] = std::string();
+                touched = ev.path;
+            }
             break;
         case FS_OPEN_OTHER:
-            if (ev.err == 0 && !files.count(ev.path)) files[ev.path] = std::string();
+            if (ev.err == 0 && !files.count(ev.path))
+            {
+                files[ev.path] = std::string();
+                touched = ev.path;
+            }
             break;
         case FS_WRITE:
         {
@@ -78,10 +90,11 @@ void enumerate_crash_states(std::map<std::string, std::string> files,
                 if (p <= done || p >= ev.data.size()) continue;
                 content.append(ev.data, done, p - done);
                 done = p;
-                v.state(e, p, files);
+                v.state(e, p, files, ev.path);
             }
             content.resize(base);
             content.append(ev.data);
+            if (!ev.data.empty()) touched = ev.path;
             break;
         }
         case FS_CLOSE:
@@ -91,17 +104,22 @@ void enumerate_crash_states(std::map<std::string, std::string> files,
             {
                 files[ev.path2] = files[ev.path];
                 files.erase(ev.path);
+                touched = "*";
             }
             break;
         case FS_REMOVE:
-            if (ev.err == 0) files.erase(ev.path);
+            if (ev.err == 0)
+            {
+                files.erase(ev.path);
+                touched = ev.path;
+            }
             break;
         default:
             break;
         }
     }
 
-    v.state(trace.size(), ~0ULL, files);
+    v.state(trace.size(), ~0ULL, files, touched);
 }
 
 CapBuf::int_type CapBuf::overflow(int_type ch)
